@@ -661,4 +661,147 @@ Proof.
   intros st Hst. rewrite sem_concat_eq, Hes, sem_cat_app. apply flat_map_ext. intros s. now rewrite sem_cat_app.
 Qed.
 
+(* ---------- Alt ---------- *)
+
+Fixpoint alt_codes (hc : bool) (g pc ns : nat) (l : list expr) : cerr + (list (list insn) * nat) :=
+  match l with
+  | [] => inr ([], ns)
+  | [x] => match visit bs x g hc pc ns with inl er => inl er | inr (c, ns1) => inr ([c], ns1) end
+  | x :: ((_ :: _) as r) =>
+      match visit bs x g hc (pc + 1) ns with
+      | inl er => inl er
+      | inr (c, ns1) =>
+          match alt_codes hc (g + ngroups x) (pc + 1 + length c + 1) ns1 r with
+          | inl er => inl er
+          | inr (cs, ns2) => inr (c :: cs, ns2)
+          end
+      end
+  end.
+
+Lemma visit_alt es g hc pc ns :
+  visit bs (Alt es) g hc pc ns =
+  if negb hc && negb (hard bs g (Alt es)) then inr (delegate1 (Alt es) g, ns) else
+  match alt_codes hc g pc ns es with
+  | inl er => inl er
+  | inr (cs, ns1) => inr (alt_layout pc (pc + alt_size cs) cs, ns1)
+  end.
+Proof.
+  cbn [visit]. destruct (negb hc && negb (hard bs g (Alt es))); auto.
+  match goal with |- match ?f0 g pc ns es with _ => _ end = _ => set (f := f0) end.
+  assert (E : forall l g pc ns, f g pc ns l = alt_codes hc g pc ns l).
+  { induction l as [|x r IH]; intros g0 pc0 ns0; [reflexivity|].
+    destruct r as [|y r]; [reflexivity|].
+    change (f g0 pc0 ns0 (x :: y :: r)) with
+      (match visit bs x g0 hc (pc0 + 1) ns0 with
+       | inl er => inl er
+       | inr (c, ns1) => match f (g0 + ngroups x) (pc0 + 1 + length c + 1) ns1 (y :: r) with
+                         | inl er => inl er | inr (cs0, ns2) => inr (c :: cs0, ns2) end
+       end).
+    change (alt_codes hc g0 pc0 ns0 (x :: y :: r)) with
+      (match visit bs x g0 hc (pc0 + 1) ns0 with
+       | inl er => inl er
+       | inr (c, ns1) => match alt_codes hc (g0 + ngroups x) (pc0 + 1 + length c + 1) ns1 (y :: r) with
+                         | inl er => inl er | inr (cs0, ns2) => inr (c :: cs0, ns2) end
+       end).
+    destruct (visit bs x g0 hc (pc0 + 1) ns0) as [|[c ns1]]; auto. now rewrite IH. }
+  rewrite E. reflexivity.
+Qed.
+
+Lemma alt_layout_length : forall cds pc e, length (alt_layout pc e cds) = alt_size cds.
+Proof.
+  induction cds as [|c r IH]; intros pc e; [reflexivity|]. destruct r as [|c' r']; [reflexivity|].
+  change (alt_layout pc e (c :: c' :: r')) with
+    (ISplit (pc + 1) (pc + 1 + length c + 1) :: c ++ IJmp e :: alt_layout (pc + 1 + length c + 1) e (c' :: r')).
+  change (alt_size (c :: c' :: r')) with (1 + length c + 1 + alt_size (c' :: r')).
+  cbn [length]. rewrite app_length. cbn [length]. rewrite IH. lia.
+Qed.
+
+Lemma alt_codes_cons2 hc g pc ns x y r : alt_codes hc g pc ns (x :: y :: r) =
+  match visit bs x g hc (pc + 1) ns with
+  | inl er => inl er
+  | inr (c, ns1) => match alt_codes hc (g + ngroups x) (pc + 1 + length c + 1) ns1 (y :: r) with
+                    | inl er => inl er | inr (cs0, ns2) => inr (c :: cs0, ns2) end
+  end.
+Proof. reflexivity. Qed.
+Lemma alt_layout_cons2 pc e c c' r' : alt_layout pc e (c :: c' :: r') =
+  ISplit (pc + 1) (pc + 1 + length c + 1) :: c ++ IJmp e :: alt_layout (pc + 1 + length c + 1) e (c' :: r').
+Proof. reflexivity. Qed.
+Lemma alt_size_cons2 c c' r' : alt_size (c :: c' :: r') = 1 + length c + 1 + alt_size (c' :: r').
+Proof. reflexivity. Qed.
+Lemma alt_codes_ne hc g pc ns y r cds ns' : alt_codes hc g pc ns (y :: r) = inr (cds, ns') -> exists c' r', cds = c' :: r'.
+Proof.
+  destruct r as [|z r].
+  - cbn [alt_codes]. destruct (visit bs y g hc pc ns) as [|[? ?]]; [discriminate|]. inversion 1. eauto.
+  - rewrite alt_codes_cons2. destruct (visit bs y g hc (pc + 1) ns) as [|[? ?]]; [discriminate|].
+    destruct (alt_codes hc _ _ _ (z :: r)) as [|[? ?]]; [discriminate|]. inversion 1. eauto.
+Qed.
+
+Lemma R_widen v k k' l l' x v' : l <= k -> k' <= l' -> R v k k' x v' -> R v l l' x v'.
+Proof. intros ? ? (H1 & H2 & H3 & H4). unfold R. repeat split; try tauto; destruct H4 as [L F]; auto. intros j Hj Ho. apply F; auto. lia. Qed.
+
+Lemma Gen_R_widen pc q K c v k k' l l' xs : l <= k -> k' <= l' ->
+  Gen pc q K c (map (R v k k') xs) -> Gen pc q K c (map (R v l l') xs).
+Proof.
+  intros H1 H2. apply Gen_impl. apply Forall2_same_map. intros a _ v'. now apply R_widen.
+Qed.
+
+Lemma seg_alts hc : forall r x, Forall seg_stmt (x :: r) -> forall g pc ns cds ns',
+  alt_codes hc g pc ns (x :: r) = inr (cds, ns') ->
+  nodeleg (alt_layout pc (pc + alt_size cds) cds) -> At pc (alt_layout pc (pc + alt_size cds) cds) ->
+  okl g (x :: r) -> NC <= ns -> 2 * (g + ngroups_list (x :: r)) <= NC ->
+  ns <= ns' /\
+  forall v K, ns' <= length (v_sl v) -> st_ok cs (sof v) ->
+  Gen pc (pc + alt_size cds) K (RunV pc v K) (map (R v ns ns') (sem_alts cx fuel g (x :: r) (sof v))).
+Proof.
+  induction r as [|y r IH]; intros x HF g pc ns cds ns' Hc Hnd HAt Hok Hns Hng.
+  - cbn [alt_codes] in Hc. destruct (visit bs x g hc pc ns) as [er|[c ns1]] eqn:Hx; [discriminate|].
+    inversion Hc; subst cds ns'. cbn [alt_layout alt_size] in *.
+    inversion HF; subst. apply okl_cons in Hok as [Hox _]. rewrite ngl_cons, ngl_nil in Hng.
+    destruct (H1 g hc pc ns c ns1 Hx Hnd HAt Hox Hns ltac:(lia)) as [M G]. split; auto.
+    intros v K Hsl Hokv. cbn [sem_alts]. rewrite app_nil_r. apply G; auto.
+  - rewrite alt_codes_cons2 in Hc. destruct (visit bs x g hc (pc + 1) ns) as [er|[c ns1]] eqn:Hx; [discriminate|].
+    destruct (alt_codes hc (g + ngroups x) (pc + 1 + length c + 1) ns1 (y :: r)) as [er|[cds' ns2]] eqn:Hr; [discriminate|].
+    inversion Hc; subst cds ns'. clear Hc.
+    destruct (alt_codes_ne _ _ _ _ _ _ _ _ Hr) as (c' & r' & ->).
+    set (endpc := pc + alt_size (c :: c' :: r')) in *.
+    assert (Eend : endpc = (pc + 1 + length c + 1) + alt_size (c' :: r')) by (unfold endpc; rewrite alt_size_cons2; lia).
+    rewrite alt_layout_cons2 in Hnd, HAt.
+    apply nodeleg_cons in Hnd as [_ Hnd]. apply nodeleg_app in Hnd as [Hnc Hnd]. apply nodeleg_cons in Hnd as [_ Hnr].
+    apply At_cons in HAt as [Ha1 HAt]. apply At_app in HAt as [HAc HAt]. apply At_cons in HAt as [Ha2 HAr].
+    replace (S pc) with (pc + 1) in * by lia.
+    replace (S (pc + 1 + length c)) with (pc + 1 + length c + 1) in HAr by lia.
+    inversion HF as [|? ? Hsx HFr]; subst. apply okl_cons in Hok as [Hox Hor]. rewrite ngl_cons in Hng.
+    destruct (Hsx g hc (pc + 1) ns c ns1 Hx Hnc HAc Hox Hns ltac:(lia)) as [M1 G1].
+    rewrite Eend in Hnr, HAr.
+    destruct (IH y HFr _ _ _ _ _ Hr Hnr HAr Hor ltac:(lia) ltac:(lia)) as [M2 G2].
+    split; [lia|]. intros v K Hsl Hokv. cbn [sem_alts]. rewrite map_app.
+    apply Gen_step. unfold RunV at 1. rewrite (step_split cx P pc _ _ _ K _ _ Ha1).
+    fold (alt_of (pc + 1 + length c + 1) v).
+    change (Run (pc + 1) (v_ix v) (v_sl v) (v_aux v) (alt_of (pc + 1 + length c + 1) v :: K))
+      with (RunV (pc + 1) v ([alt_of (pc + 1 + length c + 1) v] ++ K)).
+    apply Gen_app with (F := [alt_of (pc + 1 + length c + 1) v]).
+    + constructor; [|constructor]. cbn [alt_of a_pc]. lia.
+    + apply Gen_weaken with (p := pc + 1); [lia|].
+      eapply Gen_map with (q := pc + 1 + length c); [lia| |apply (Gen_R_widen _ _ _ _ v ns ns1 ns ns2); [lia|lia|apply G1; auto; lia]].
+      apply Forall2_same_map. intros a _ v' K1 HR. exists v'. split; auto.
+      apply steps_step. unfold RunV. apply step_jmp. exact Ha2.
+    + apply Gen_step. cbn [app mstep alt_of a_pc a_ix a_slots a_aux].
+      change (Run (pc + 1 + length c + 1) (v_ix v) (v_sl v) (v_aux v) K) with (RunV (pc + 1 + length c + 1) v K).
+      apply Gen_weaken with (p := pc + 1 + length c + 1); [lia|]. rewrite Eend.
+      apply (Gen_R_widen _ _ _ _ v ns1 ns2 ns ns2); [lia|lia|]. apply G2; auto.
+Qed.
+
+Lemma seg_alt es : Forall seg_stmt es -> seg_stmt (Alt es).
+Proof.
+  intros IH g hc pc ns code ns' Hv Hnd HAt Hok Hns Hng. rewrite visit_alt in Hv.
+  destruct (negb hc && negb (hard bs g (Alt es))) eqn:Edel.
+  { inversion Hv; subst code ns'. split; [lia|]. intros v K Hsl Hokv. apply seg_deleg; auto using st_ok_ix. }
+  destruct (alt_codes hc g pc ns es) as [er|[cds ns1]] eqn:Hc; [discriminate|]. inversion Hv; subst code ns'. clear Hv.
+  destruct Hok as (Hw & Hz & Hac). rewrite acheck_alt in Hac. destruct es as [|x r]; [discriminate|].
+  rewrite ngroups_alt in Hng. rewrite wfe_alt in Hw. rewrite zok_alt in Hz.
+  assert (Hokl : okl g (x :: r)) by (unfold okl, oke; rewrite wfe_concat, zok_concat, acheck_concat; auto).
+  destruct (seg_alts hc r x IH g pc ns cds ns1 Hc Hnd HAt Hokl Hns Hng) as [M G]. split; auto.
+  intros v K Hsl Hokv. rewrite alt_layout_length, sem_alt_eq. apply G; auto.
+Qed.
+
 End CC.
